@@ -83,6 +83,12 @@ class C01(Base):
                     f"host row {i} ({m.addrs[i]}) changed compromised/access "
                     f"{comp0[i]},{acc0[i]} -> {comp1[i]},{acc1[i]} by "
                     f"{kind} {d['name']} on {d['target']}", T)
+        if changed and not T.success:
+            acc.violation(
+                "failed_action_changed_access",
+                mech_of(T, "failed_action_changed_access"),
+                f"{kind} {d['name']} on {d['target']} reported failure but "
+                f"changed compromised/access of rows {changed}", T)
         # (b) sufficiency: all preconditions + succeeding draw => success and
         #     access = max(previous, granted)
         if T.gate == G_OK and kind in (EXPLOIT, PRIVESC):
@@ -795,7 +801,18 @@ class C07(Base):
             return      # unscripted draw: decided by finalize_frequency
         d = Tlo.desc
         gate_lo, gate_hi = Tlo.gate, Thi.gate
-        if gate_lo in NETWORK_GATES:
+        if gate_lo == G_NOACCESS and d["kind"] in (SUB_SCAN, PROC_SCAN):
+            # on-host scans meet their access test after the draw: which
+            # error is reported may depend on it (no property fixes the kind
+            # of error); the outcome, the state and the value may not
+            for T in (Tlo, Thi):
+                if T.success or not np.array_equal(T.pre, T.post) or \
+                        T.info.get("value", 0) != 0:
+                    acc.violation("gate_failed_depends_on_draw",
+                                  mech_of(T, "gate_failed_depends_on_draw"),
+                                  {"success": T.success}, T)
+            acc.count("pairs_gate_failed")
+        elif gate_lo in NETWORK_GATES:
             same = (flags_of(Tlo.info) == flags_of(Thi.info)
                     and np.array_equal(Tlo.post, Thi.post)
                     and Tlo.reward == Thi.reward
